@@ -66,9 +66,15 @@ impl<T> ConcurrentVec<T> {
         if new_len <= head {
             return;
         }
-        self.push_at(f(), new_len - 1, || {
-            MaybeUninit::new(SyncUnsafeCell(UnsafeCell::new(f())))
-        });
+        // Every slot in `head..new_len` becomes visible once `head` is advanced, so each of them
+        // has to be written: the backing vector may already be longer than `head` (a previous
+        // `push` grows it to a power of two and leaves the tail uninitialized), in which case
+        // writing only the last slot would publish uninitialized memory.
+        for index in head..new_len {
+            self.push_at(f(), index, || {
+                MaybeUninit::new(SyncUnsafeCell(UnsafeCell::new(f())))
+            });
+        }
         self.head.store(new_len, Ordering::Release);
     }
 
